@@ -491,7 +491,7 @@ def id_filters(ck, rule_filter, rule_order):
                     oki = itoks is not None and R.roles_of_tokens(itoks).get("query/reference") == want and "ids" in itoks
                     ck.judge(oki, rule_filter, f"Program.__readMaps:{c.fn.name}:ids", site.where,
                              f"{c.fn.name} is restricted by the {side} ids", found=ast.unparse(ia[0]), required=f"self.args.{side}Ids")
-    if n == 0:
+    if True:
         # the reader method is handed to a helper as a value: helper(<file>, <ids>, cmapReader.readQueries) - the other arguments of
         # that call are the file and the ids the method is applied to, and must be of the method's side
         for f in readers:
@@ -517,6 +517,51 @@ def id_filters(ck, rule_filter, rule_order):
                     what = "ids" if "ids" in toks else "file"
                     ck.judge(r == want, rule_filter, f"Program.__readMaps:{name}:{what}", where(f, node),
                              f"{name} is applied to the {side} {what}", found=ast.unparse(a), required=f"self.args.{side}{'Ids' if what == 'ids' else 'File'}")
+    if n < 2:
+        # the reader calls sit behind closures / helpers taking callables: judge what Program.__init__ finally stores - the terms of
+        # self.referenceMaps / self.queryMaps hold the reader applications with the arguments they receive
+        from ..rules.common import expand_simple_apps, self_attr as _sa
+
+        def term_tokens(t):
+            if t[0] == "attr":
+                b = term_tokens(t[1])
+                return None if b is None else b + R.tokens(t[2])
+            if t[0] == "v":
+                return R.tokens(t[1])
+            if t[0] == "orelse":
+                return term_tokens(t[1][0])
+            return None
+        own_private = lambda callee: callee.cls is init.cls and callee is not init and callee.name.startswith("_")
+        found = {}
+        for pa in explore(ck, init, follow=own_private, unroll=(0, 1)):
+            if pa.outcome not in ("fall", "return"):
+                continue
+            for e in pa.events:
+                if e.kind == "setattr" and e.extra["target"] in (_sa("queryMaps"), _sa("referenceMaps")):
+                    def reader_apps(t0):
+                        return [x for x in T.subterms(t0) if x[0] == "app" and "CmapReader" in x[1] and
+                                x[1].split(".")[-1] in ("readReferences", "readQueries", "readQuery", "readReference")]
+                    hits = reader_apps(e.term) or reader_apps(expand_simple_apps(ck, e.term, 1))
+                    for x in hits:
+                        found[(x[1], x)] = e
+            break
+        if len(found) >= 2:
+            n = 0
+            for (qual, x), e in found.items():
+                name = qual.split(".")[-1]
+                side = "reference" if "eference" in name else "query"
+                want = 1 if side == "reference" else 0
+                vals = list(dict(x[3]).values())
+                if len(vals) != 2:
+                    raise AnalysisError(f"{where(init, e.node)}: {name} applied to {len(vals)} argument(s): {T.show(x)[:160]}")
+                n += 1
+                for v, what in zip(vals, ("file", "ids")):
+                    toks = term_tokens(v)
+                    if toks is None:
+                        raise AnalysisError(f"{where(init, e.node)}: argument of {name} is not a plain access path: {T.show(v)[:120]}")
+                    ck.judge(R.roles_of_tokens(toks).get("query/reference") == want, rule_filter, f"Program.__readMaps:{name}:{what}",
+                             where(init, e.node), f"{name} is applied to the {side} {what}", found=T.show(v),
+                             required=f"self.args.{side}{'Ids' if what == 'ids' else 'File'}")
     ck.floor(f"{rule_filter} reader calls in Program.__readMaps", n, 2)
     # public entry points hand the ids on to the private reader
     cr = p.find_class("CmapReader")
